@@ -319,7 +319,7 @@ Proof.
   destruct (negb (exists_b s (c_proj c))); [apply Eff_refl|].
   destruct (negb (a_ok a)); [apply Eff_refl|].
   destruct (negb (a_cmds a)); [apply Eff_refl|].
-  destruct (negb (c_force c) && cache_hit c a s); [apply Eff_refl|].
+  destruct (negb (c_force c) && up_to_date c a s); [apply Eff_refl|].
   pose proof (generate_core_Eff c a s) as E. destruct (generate_core c a s) as [s' ok]. exact E.
 Qed.
 
@@ -450,7 +450,7 @@ Proof.
   destruct (negb (exists_b s (c_proj c)) || negb (a_ok a)); [apply Eff_refl|].
   destruct (negb (a_cmds a)); cbn [negb].
   { pose proof (finalize_Eff (c_out c) [] s) as F. destruct (finalize_generation (c_out c) [] s). exact F. }
-  destruct (negb (c_force c) && cache_hit c a s); cbn [negb].
+  destruct (negb (c_force c) && up_to_date c a s); cbn [negb].
   { pose proof (finalize_Eff (c_out c) (child_files s (c_out c)) s) as F.
     destruct (finalize_generation (c_out c) (child_files s (c_out c)) s). exact F. }
   destruct (negb (c_lib_ok c)); cbn [negb fst]; [apply Eff_refl|].
